@@ -12,9 +12,11 @@ import (
 // none, a hash equal to ours or not.  Diff / CompareDiff against it end (with a result or an error) after a
 // number of rounds bounded by our own index; they do not keep asking for ever.
 type vC11Remote struct {
-	local  *diff
-	rounds int
-	max    int
+	local    *diff
+	rounds   int
+	max      int
+	strategy int
+	count    int
 }
 
 func (r *vC11Remote) Ranges(ctx context.Context, ranges []Range, resBuf []RangeResult) ([]RangeResult, error) {
@@ -23,19 +25,20 @@ func (r *vC11Remote) Ranges(ctx context.Context, ranges []Range, resBuf []RangeR
 		rt.Assert(false, "diff-against-a-hostile-remote-terminates")
 		return nil, context.Canceled
 	}
-	mine, _ := r.local.Ranges(ctx, ranges, nil)
 	out := resBuf[:0]
 	for i := range ranges {
 		var rr RangeResult
-		switch rt.Choose(4) {
-		case 0: // says what we have
-			rr = mine[i]
-		case 1: // another hash, a large count, no elements
-			rr = RangeResult{Hash: []byte("zz"), Count: 100}
-		case 2: // another hash, a small count, no elements
-			rr = RangeResult{Hash: []byte("zz"), Count: 1}
-		case 3: // elements as announced
-			rr = RangeResult{Hash: []byte("zz"), Count: 1, Elements: []Element{{Id: "x", Head: "h"}}}
+		switch r.strategy {
+		case 0: // another hash, the announced count, never any element
+			rr = RangeResult{Hash: []byte("zz"), Count: r.count}
+		case 1: // elements only when not asked for them
+			rr = RangeResult{Hash: []byte("zz"), Count: r.count}
+			if !ranges[i].Elements {
+				rr.Count = 1
+				rr.Elements = []Element{{Id: "x", Head: "h"}}
+			}
+		default: // fewer elements than announced
+			rr = RangeResult{Hash: []byte("zz"), Count: r.count, Elements: []Element{{Id: "x", Head: "h"}}}
 		}
 		out = append(out, rr)
 	}
@@ -54,7 +57,8 @@ func VerifC11DiffRemote() {
 		els = append(els, Element{Id: ids[i], Head: "h"})
 	}
 	d1.Set(els...)
-	rem := &vC11Remote{local: d1, max: rt.Param("rounds", 6)}
+	// one strategy and one announced count per run: the remote is consistent in its lie
+	rem := &vC11Remote{local: d1, max: rt.Param("rounds", 8), strategy: rt.Choose(3), count: rt.IntRange(0, 5)}
 	var err error
 	if rt.Param("variant", 0) == 0 {
 		_, _, _, err = d1.Diff(context.Background(), rem)
